@@ -297,7 +297,7 @@ pub fn run(e: &Engine) {
     e.run_prop(
         "long-queries-and-default-limit",
         e.tier.pick(300, 6_000),
-        || (proptest::collection::vec(prop_oneof![4 => (0usize..8).prop_map(|i| SIGMA[i]), 1 => Just('b')], 6..=14), 0u32..=4, proptest::collection::vec((0usize..14, 0usize..8, 0u8..3), 0..12)),
+        || (prop_oneof![3 => proptest::collection::vec(prop_oneof![4 => (0usize..8).prop_map(|i| SIGMA[i]), 1 => Just('b')], 6..=14), 2 => proptest::collection::vec(prop_oneof![(0usize..8).prop_map(|i| SIGMA[i]), (b'a'..=b'z').prop_map(|c| c as char)], 15..=26)], 0u32..=4, proptest::collection::vec((0usize..14, 0usize..8, 0u8..3), 0..12)),
         |(q, d, _)| json!({"q": q.iter().collect::<String>(), "d": d}),
         |(q, d, edits), rec| {
             let qstr: String = q.iter().collect();
